@@ -14,7 +14,7 @@ from typing import Callable, Dict, List, Optional, Set, Tuple
 
 from ..core import astq
 from ..core.program import AnalysisError, ClassInfo, FunctionInfo, Program, norm, short
-from .geomval import (ONE, Cfg, Cms, Const, Func, Geo, HDict, HList, HObj, Mismatch, Mono, Num, Other, Ref, Shape, Top, Tup, V, join)
+from .geomval import (strip_aug, strip_offs, ONE, Cfg, Cms, Const, Func, Geo, HDict, HList, HObj, Mismatch, Mono, Num, Other, Ref, Shape, Top, Tup, V, join)
 
 PASS_METHODS = {
     "unsqueeze", "squeeze", "to", "cpu", "cuda", "numpy", "detach", "float", "double", "half", "clone", "copy", "reshape", "view", "permute",
@@ -485,7 +485,7 @@ class Interp:
             if isinstance(o, HList):
                 return [o.elem if o.elem is not None else Other("empty")] * n
         if isinstance(v, Shape):
-            return [Other("dim")] * n
+            return [Shape(v.of)] * n
         if isinstance(v, (Geo, Num, Other, Cfg, Const, Cms)):
             return [v if not isinstance(v, Const) else Other("elem")] * n
         if isinstance(v, Mismatch):
@@ -773,12 +773,14 @@ class Interp:
             if ga and gb:
                 if a.kind in ("PTS", "BOX") and b.kind == "BOX" and a.kind == "PTS":
                     self._corner_check(fr, node, b)
+                    labels = lambda offs: frozenset(l for l, _ in offs)
                     if isinstance(op, ast.Sub):
-                        if a.mono != b.mono or a.offs != b.offs:
-                            return Mismatch((a, b), f"points in frame <{a.mono}>{_o(a)} minus a box corner in frame <{b.mono}>{_o(b)} at {w}")
-                        return Geo("PTS", a.mono, a.offs | {(b.label, b.mono)})
-                    ent = (b.label, b.mono)
-                    if ent in a.offs and a.offs - {ent} == b.offs:
+                        if labels(a.offs) != labels(b.offs):
+                            return Mismatch((a, b), f"points living in crop(s) {sorted(labels(a.offs))} minus the corner of a box computed in crop(s) {sorted(labels(b.offs))} at {w}")
+                        # the corner is subtracted as raw numbers: the new origin is that box, expressed in the points' own units
+                        return Geo("PTS", a.mono, a.offs | {(b.label, a.mono)})
+                    ent = next((x for x in a.offs if x[0] == b.label), None)
+                    if ent is not None and strip_aug(ent[1]) == strip_aug(b.mono) and labels(a.offs - {ent}) == labels(b.offs):
                         return Geo("PTS", a.mono, a.offs - {ent})
                     return Mismatch((a, b), f"adding the corner of box {b.label}@<{b.mono}> to points with origins {sorted((l, repr(m)) for l, m in a.offs)} at {w}")
                 if a.kind == b.kind == "PTS":
@@ -815,7 +817,7 @@ class Interp:
             if isinstance(cur, ast.Subscript):
                 s = cur.slice
                 for x in (s.elts if isinstance(s, ast.Tuple) else [s]):
-                    if not isinstance(x, ast.Slice):
+                    if not isinstance(x, ast.Slice) and not isinstance(astq.const_value(x), str):
                         idx.append(astq.const_value(x))
                 cur = cur.value
             elif isinstance(cur, ast.Call):
@@ -933,7 +935,7 @@ class Interp:
         if isinstance(base, Geo):
             return base  # indexing a tensor of coordinates / an image keeps the frame
         if isinstance(base, Shape):
-            return Shape(base.of) if isinstance(s, ast.Slice) else Other("dim")
+            return Shape(base.of)  # a dimension of an image still identifies that image's frame
         if isinstance(base, (Num, Other, Top, Mismatch)):
             return base
         if isinstance(base, Const):
